@@ -594,10 +594,11 @@ func (x *Exec) callFunc(st *State, call *ast.CallExpr, fn *types.Func, recv *Val
 	if vs, ok := x.libModel(st, call, fn, key, recv, args); ok {
 		return vs
 	}
-	c := x.prog.specs.Contracts[key]
+	// extern contracts are local to the package whose code is being executed; where a package states its own
+	// (assumed) view of a function of another package, that view is the one its proofs rest on
+	c := x.prog.specs.Contracts[x.pkg.PkgPath+"::"+key]
 	if c == nil {
-		// extern contracts are local to the package whose code is being executed
-		c = x.prog.specs.Contracts[x.pkg.PkgPath+"::"+key]
+		c = x.prog.specs.Contracts[key]
 	}
 	if c != nil && !(x.contract != nil && x.contract.Inlines[c.Local]) {
 		return x.applyContract(st, call, fn, c, recv, args)
@@ -623,6 +624,7 @@ func (x *Exec) callFunc(st *State, call *ast.CallExpr, fn *types.Func, recv *Val
 		x.vc.note("method " + key + " of a library interface: assumed not to call back into module state")
 	}
 	if inModule {
+		x.prog.noContract[x.fname+" => "+key] = true
 		x.havocAll(st, "call to "+key+" (no contract)")
 	} else {
 		// library call: havoc what it can reach through pointer arguments
@@ -917,7 +919,7 @@ func (x *Exec) applyContractSig(st *State, call *ast.CallExpr, sig *types.Signat
 					cenv.names[k] = v // the callee's parameter names denote the actual arguments
 				}
 			}
-			for j, cj := range splitConj(ca.Expr) {
+			for j, cj := range x.prog.expandConj(ca.Expr, 0) {
 				cls := fmt.Sprintf("callsite@%s.%d", c.Local, i+1)
 				if j > 0 {
 					cls += fmt.Sprintf(".%d", j+1)
